@@ -16,6 +16,11 @@ BODY = {
              "G1": ", insert into t9 select 1",
              "G2": ") select 2 from t9",
              "G3": ":: x . y"},
+    # top-level SELECTs (plain, SELECT INTO) and a RENAME between them
+    "postgres": {"B1": "select a from s7",
+                 "B2": "select ';' as x, b into y7 from s8",
+                 "B3": "alter table s7 rename to s9",
+                 "B4": "select * from s6"},
     "tsql": {"B1": "insert into t1 select * from s1",
              "B2": "insert into t2 select ';' as x, c from t1",
              "B3": "select c into t3 from t2",
@@ -106,7 +111,8 @@ def _runner_chunk(args):
         hs, events, obs = [], [], []
         for b in c["expect"]:
             if b not in solo:
-                solo[b] = an.analyze(BODY[dialect][b], prov)
+                # a fresh analyzer per statement: what the statement means on its own
+                solo[b] = SqlFluffLineageAnalyzer(".", dialect).analyze(BODY[dialect][b], prov)
             hs.append(solo[b])
             events += d.facts_of(solo[b])
             h = SQLLineageHolder.of(prov, *hs)
@@ -160,6 +166,10 @@ def run(chk):
         rsel = small[::1 if not quick else 2] + rest[:1500 if quick else 20000]
         rres = pool.map(_runner_chunk, [(c, "ansi", "plain") for c in chunks(rsel, 64)])
         rflat = [x for part in rres for x in part]
+        # the same scripts over bodies that are top-level SELECTs (postgres: SELECT INTO), through the runner
+        psel = rsel[:400 if quick else 6000]
+        pres = pool.map(_runner_chunk, [(c, "postgres", "plain") for c in chunks(psel, 64)])
+        pflat = [x for part in pres for x in part]
         rnd.shuffle(nl_cases)
         nsel = nl_cases[:300 if quick else 4000]
         half = len(nsel) // 2
@@ -174,7 +184,7 @@ def run(chk):
         if g_ != exp:
             chk.reject({"module": "Split", "clause": "statements_exact", "route": "helpers.split+trim_comment"},
                        {"script": c["script"], "text": text_of(c["script"], "ansi"), "expected": exp, "reported": g_})
-    for sel, flat, dialect in ((rsel, rflat, "ansi"), (nsel, nflat, "tsql")):
+    for sel, flat, dialect in ((rsel, rflat, "ansi"), (psel, pflat, "postgres"), (nsel, nflat, "tsql")):
         for c, rec in zip(sel, flat):
             exp = [norm(BODY[dialect][b]) for b in c["expect"]]
             chk.count(["runner", dialect, c["script"]], nontrivial=len(c["expect"]) > 1)
@@ -189,8 +199,8 @@ def run(chk):
                 chk.reject({"module": "Split", "clause": "column_lineage_is_combination_of_statements", "dialect": dialect},
                            {"text": rec["text"], "dialect": dialect, "script_pairs": rec["pairs"], "combined_solo_pairs": rec["solo_pairs"]})
     # ---- clause 2: table lineage of the script = fold of the statements analysed alone (ideal relation of Script.tla)
-    traces = [{"h": x["h"], "obs": x["obs"]} for x in rflat + nflat if x["h"] and len(x["h"]) == len(x["obs"])]
-    src = [x for x in rflat + nflat if x["h"] and len(x["h"]) == len(x["obs"])]
+    traces = [{"h": x["h"], "obs": x["obs"]} for x in rflat + pflat + nflat if x["h"] and len(x["h"]) == len(x["obs"])]
+    src = [x for x in rflat + pflat + nflat if x["h"] and len(x["h"]) == len(x["obs"])]
     tcfg = os.path.join(tlc.SPEC, "Trace_Script.cfg")
     verdicts = {}
     B = 6000
